@@ -25,7 +25,6 @@ Section M.
     let h := it_next it in
     let it1 := {| it_hdr := h; it_data := it_data it; it_next := it_next it; it_end := it_end it |} in
     let* tl := rd (h + 1) in
-    if tl <=? 0 then Done (it1, None) else
     let bytes_left := it_end it - h in
     if bytes_left <=? tl then Done (it1, None) else
     let* n := rd h in
